@@ -141,7 +141,7 @@ func pruneHyp(c *Ctx, args string, p *profile.Profile, m func(profile.Line) bool
 		b = b || f == "2"
 	}
 	if len(rep) != len(p.Sample) || (a || b) != (ga || gb) {
-		c.Disagree("C11/hypothesis-classifier", "harness and model disagree on which samples satisfy the hypothesis PruneH", "hypothesis PruneH of prune_spec_frames_partial (driver op prune.H)", map[string]string{"args": trunc(args)})
+		c.Disagree("C11/hypothesis-classifier", "harness and model disagree on which samples satisfy the hypothesis PruneH", "hypothesis PruneH of prune_spec_frames_partial (driver op prune.H)", map[string]string{"args": c06trunc(args)})
 	}
 	if a {
 		return true, "C11/prune/H-violated/partial-first-user-location"
@@ -156,7 +156,7 @@ func pruneFromHyp(c *Ctx, args string, p *profile.Profile, m func(profile.Line) 
 		v = v || f == "1"
 	}
 	if len(rep) != len(p.Sample) || v != hypPFViolated(p, m) {
-		c.Disagree("C11/hypothesis-classifier", "harness and model disagree on which samples satisfy the hypothesis PruneFromH", "hypothesis PruneFromH of pruneFrom_spec_partial (driver op prunefrom.H)", map[string]string{"args": trunc(args)})
+		c.Disagree("C11/hypothesis-classifier", "harness and model disagree on which samples satisfy the hypothesis PruneFromH", "hypothesis PruneFromH of pruneFrom_spec_partial (driver op prunefrom.H)", map[string]string{"args": c06trunc(args)})
 	}
 	return v
 }
@@ -257,11 +257,11 @@ func c11Judge(c *Ctx, e *c11Env, cs c11Case, what string, in, real *profile.Prof
 		}
 	}
 	if spec, ok := splitViews(specS); !ok {
-		c.Disagree("C11/"+what+"/spec-unreadable", trunc(specS), "Spec (driver)", cs)
+		c.Disagree("C11/"+what+"/spec-unreadable", c06trunc(specS), "Spec (driver)", cs)
 	} else if kind, rv, sv := diffViews(realV, spec); kind != "" && !oracleFailed {
 		oracleFailed = true
 		sig := "C11/" + what + "/" + kind
-		msg := fmt.Sprintf("%s differs from the frame-level rule (%s): real %q, rule %q", what, kind, trunc(rv), trunc(sv))
+		msg := fmt.Sprintf("%s differs from the frame-level rule (%s): real %q, rule %q", what, kind, c06trunc(rv), c06trunc(sv))
 		switch {
 		case known && (kind == "frames-extra" || (what == "prune_from" && kind == "frames-lost")):
 			sig = knownSig
@@ -300,7 +300,7 @@ func c11Prune(c *Ctx, e *c11Env, cs c11Case) {
 		p.DropFrames, p.KeepFrames = cs.Drop, cs.Keep
 		// the model reads the expressions from the profile; they are part of the canonical text
 		var rerr error
-		if pn := safely(func() { rerr = p.RemoveUninteresting() }); pn != "" {
+		if pn := c06safely(func() { rerr = p.RemoveUninteresting() }); pn != "" {
 			c.Violation("C11/remove_uninteresting/panic", pn, cs)
 			return
 		}
@@ -325,12 +325,12 @@ func c11Prune(c *Ctx, e *c11Env, cs c11Case) {
 		}
 		rep := c.Drv.Ask("ru.model " + w.String() + " " + Canon(pin))
 		if !strings.HasPrefix(rep, "ok ") {
-			c.Disagree("C11/ru-model/"+firstWord(rep), "model of RemoveUninteresting does not accept compilable expressions: "+trunc(rep), "correspondence Prune.removeUninteresting ~ RemoveUninteresting", cs)
+			c.Disagree("C11/ru-model/"+c06firstWord(rep), "model of RemoveUninteresting does not accept compilable expressions: "+c06trunc(rep), "correspondence Prune.removeUninteresting ~ RemoveUninteresting", cs)
 			return
 		}
 		model = rep[3:]
 	} else {
-		if pn := safely(func() { p.Prune(drop, keep) }); pn != "" {
+		if pn := c06safely(func() { p.Prune(drop, keep) }); pn != "" {
 			c.Violation("C11/prune/panic", pn, cs)
 			return
 		}
@@ -354,7 +354,7 @@ func c11PruneFrom(c *Ctx, e *c11Env, cs c11Case) {
 	known := pruneFromHyp(c, args, p, e.lineMatcher(re, nil))
 	in, _ := ParseCanon(cs.Profile)
 	inViews := viewList(in)
-	if pn := safely(func() { p.PruneFrom(re) }); pn != "" {
+	if pn := c06safely(func() { p.PruneFrom(re) }); pn != "" {
 		c.Violation("C11/prune_from/panic", pn, cs)
 		return
 	}
@@ -385,7 +385,7 @@ func c11Simplify(c *Ctx, e *c11Env, cs c11Case) {
 			return 0, false
 		}
 		p := mk()
-		if pn := safely(func() { p.Prune(re, nil) }); pn != "" {
+		if pn := c06safely(func() { p.Prune(re, nil) }); pn != "" {
 			c.Violation("C11/simplify/panic", pn, cs)
 			return 0, false
 		}
@@ -445,7 +445,7 @@ func c11CliEval(c *Ctx, e *c11Env, cs c11Case, res cliOut) {
 		}
 		rep := c.Drv.Ask("ru.model " + w.String() + " " + cur)
 		if !strings.HasPrefix(rep, "ok ") {
-			c.Disagree("C11/cli-model/"+firstWord(rep), trunc(rep), broken, cs)
+			c.Disagree("C11/cli-model/"+c06firstWord(rep), c06trunc(rep), broken, cs)
 			return
 		}
 		cur = rep[3:]
@@ -467,7 +467,7 @@ func c11CliEval(c *Ctx, e *c11Env, cs c11Case, res cliOut) {
 		i := strings.Index(rep, " | ")
 		if !strings.HasPrefix(rep, "ok ") || i < 0 {
 			if res.err == "" {
-				c.Disagree("C11/cli-model/filters-"+firstWord(rep), "model rejects the filter options, pprof accepts them", broken, cs)
+				c.Disagree("C11/cli-model/filters-"+c06firstWord(rep), "model rejects the filter options, pprof accepts them", broken, cs)
 			}
 			return
 		}
@@ -494,7 +494,7 @@ func c11CliEval(c *Ctx, e *c11Env, cs c11Case, res cliOut) {
 	}
 	mviews, ok := splitViews(c.Drv.Ask("views " + cur))
 	if !ok {
-		c.Disagree("C11/cli-model/unreadable", trunc(cur), broken, cs)
+		c.Disagree("C11/cli-model/unreadable", c06trunc(cur), broken, cs)
 		return
 	}
 	in, _ := ParseCanon(cs.Profile)
@@ -534,7 +534,7 @@ func c11CliEval(c *Ctx, e *c11Env, cs c11Case, res cliOut) {
 				hr, hs := heads(res.views), heads(spec)
 				if strings.Join(hr, "|") != strings.Join(hs, "|") {
 					oracleFailed = true
-					c.Violation("C11/cli/filters-with-prune_from/kept-samples", fmt.Sprintf("pprof -proto %v -prune_from=%q keeps %d samples; the sample filters evaluated on the unpruned stacks keep %d (values/labels %q vs %q)", cs.Opts, cs.PruneFrom, len(hr), len(hs), trunc(strings.Join(hr, "|")), trunc(strings.Join(hs, "|"))), cs)
+					c.Violation("C11/cli/filters-with-prune_from/kept-samples", fmt.Sprintf("pprof -proto %v -prune_from=%q keeps %d samples; the sample filters evaluated on the unpruned stacks keep %d (values/labels %q vs %q)", cs.Opts, cs.PruneFrom, len(hr), len(hs), c06trunc(strings.Join(hr, "|")), c06trunc(strings.Join(hs, "|"))), cs)
 				}
 			}
 		}
@@ -547,12 +547,12 @@ func c11CliEval(c *Ctx, e *c11Env, cs c11Case, res cliOut) {
 				if known && (kind == "frames-extra" || (cs.PruneFrom != "" && kind == "frames-lost")) {
 					sig = knownSig
 				}
-				c.Violation(sig, fmt.Sprintf("pprof -proto (drop_frames=%q keep_frames=%q prune_from=%q) differs from the frame-level rule (%s): real %q, rule %q", p.DropFrames, p.KeepFrames, cs.PruneFrom, kind, trunc(rv), trunc(sv)), cs)
+				c.Violation(sig, fmt.Sprintf("pprof -proto (drop_frames=%q keep_frames=%q prune_from=%q) differs from the frame-level rule (%s): real %q, rule %q", p.DropFrames, p.KeepFrames, cs.PruneFrom, kind, c06trunc(rv), c06trunc(sv)), cs)
 			}
 		}
 	}
 	if kind, rv, mv := diffViews(res.views, mviews); kind != "" && (!oracleFailed || known) {
-		c.Disagree("C11/cli-model/"+kind, fmt.Sprintf("pprof -proto and the Lean model differ: real %q, model %q", trunc(rv), trunc(mv)), broken, cs)
+		c.Disagree("C11/cli-model/"+kind, fmt.Sprintf("pprof -proto and the Lean model differ: real %q, model %q", c06trunc(rv), c06trunc(mv)), broken, cs)
 	}
 }
 
@@ -722,7 +722,7 @@ func c11NoExpr(c *Ctx, cs c11Case) {
 	p.DropFrames, p.KeepFrames = "", cs.Keep
 	before := Canon(p)
 	var rerr error
-	if pn := safely(func() { rerr = p.RemoveUninteresting() }); pn != "" {
+	if pn := c06safely(func() { rerr = p.RemoveUninteresting() }); pn != "" {
 		c.Violation("C11/remove_uninteresting/panic", pn, cs)
 		return
 	}
@@ -731,7 +731,7 @@ func c11NoExpr(c *Ctx, cs c11Case) {
 	}
 	c.Res.ModelCompared++
 	if rep := c.Drv.Ask("ru.model 0 " + before); rep != "ok "+before {
-		c.Disagree("C11/ru-model/noexpr", trunc(rep), "theorem removeUninteresting_noexpr_id", cs)
+		c.Disagree("C11/ru-model/noexpr", c06trunc(rep), "theorem removeUninteresting_noexpr_id", cs)
 	}
 }
 
@@ -775,7 +775,7 @@ func runC11(c *Ctx) {
 		}
 		c.Res.Count(c11Key(cs), c11Stats(c, e, p, m, "prune"))
 		if i < 2 {
-			c.Res.Sample(map[string]any{"kind": cs.Kind, "drop": cs.Drop, "keep": cs.Keep, "shape": describe(p), "profile": trunc(cs.Profile)})
+			c.Res.Sample(map[string]any{"kind": cs.Kind, "drop": cs.Drop, "keep": cs.Keep, "shape": describe(p), "profile": c06trunc(cs.Profile)})
 		}
 		c11Prune(c, e, cs)
 	}
